@@ -843,6 +843,8 @@ int uv_cond_timedwait(uv_cond_t* cond, uv_mutex_t* mutex, uint64_t timeout) {
   struct timespec ts;
 #if defined(__MVS__)
   struct timeval tv;
+#elif !(defined(__APPLE__) && defined(__MACH__))
+  uint64_t now;
 #endif
 
 #if defined(__APPLE__) && defined(__MACH__)
@@ -855,7 +857,10 @@ int uv_cond_timedwait(uv_cond_t* cond, uv_mutex_t* mutex, uint64_t timeout) {
     abort();
   timeout += tv.tv_sec * NANOSEC + tv.tv_usec * 1e3;
 #else
-  timeout += uv__hrtime(UV_CLOCK_PRECISE);
+  now = uv__hrtime(UV_CLOCK_PRECISE);
+  timeout += now;
+  if (timeout < now)
+    timeout = UINT64_MAX;  /* Saturate instead of wrapping around. */
 #endif
   ts.tv_sec = timeout / NANOSEC;
   ts.tv_nsec = timeout % NANOSEC;
